@@ -378,6 +378,84 @@ def stream_layer(ck, n_cases):
                 break
 
 
+class _FailingDest(io.BytesIO):
+    """a destination whose k-th write raises OSError"""
+
+    def __init__(self, k, data=b""):
+        super().__init__(data)
+        self.k = k
+        self.n = 0
+
+    def write(self, b):
+        self.n += 1
+        if self.n == self.k:
+            raise OSError("destination failed")
+        return super().write(b)
+
+
+def stream_views_layer(ck, n_cases):
+    """the record handed to a writer / appender with another scaling is a view of a larger record (a slice, a strided slice) or the destination
+    fails while taking the points: whatever the outcome - written, refused, failed - the caller's records (the view and the record it is a view of)
+    are exactly as they were"""
+    import laspy
+    from laspy.laswriter import LasWriter
+    for ci in range(n_cases):
+        fmt = [0, 3, 6][ci % 3]
+        how = ["slice", "strided", "failing_dest", "slice", "strided_same_scaling"][ci % 5]
+        dest = ["writer", "appender"][(ci // 5) % 2]
+        n = 6
+        rs = [ck.rng.choice([0.5, 0.25, 2.0]) for _ in range(3)]
+        ro = [ck.rng.choice([0.0, 16.0, -8.0]) for _ in range(3)]
+        ds = [ck.rng.choice([0.125, 1.0, 4.0]) for _ in range(3)]
+        do = [ck.rng.choice([-32.0, 64.0, 4096.0]) for _ in range(3)]
+        if how == "strided_same_scaling":
+            ds, do = rs, ro
+        pf = laspy.PointFormat(fmt)
+        parent = laspy.ScaleAwarePointRecord.zeros(n, point_format=pf, scales=np.array(rs), offsets=np.array(ro))
+        for d in "XYZ":
+            parent.array[d] = np.array([ck.rng.randrange(-10**5, 10**5) for _ in range(n)], dtype="i4")
+        rec = parent[1:4] if how in ("slice", "failing_dest") else parent[::2]
+        inp = {"kind": "stream_view", "how": how, "dest": dest, "fmt": fmt, "rec_scales": rs, "rec_offsets": ro, "dest_scales": ds, "dest_offsets": do,
+               "XYZ": [parent.array[d].tolist() for d in "XYZ"]}
+        ck.case(("stream_view", how, dest, fmt, tuple(rs), tuple(ro), tuple(ds), tuple(do), parent.array.tobytes()), nontrivial=True)
+        ck.count("stream_view:" + how)
+        snap = (parent.array.tobytes(), parent.scales.tobytes(), parent.offsets.tobytes(), rec.array.tobytes(), rec.scales.tobytes(), rec.offsets.tobytes())
+        want = [np.array(rec.x), np.array(rec.y), np.array(rec.z)]
+        hdr = laspy.LasHeader(point_format=fmt, version="1.4" if fmt >= 6 else "1.2")
+        hdr.scales, hdr.offsets = np.array(ds), np.array(do)
+        outcome = "written"
+        try:
+            if dest == "writer":
+                buf = _FailingDest(2 if how == "failing_dest" else 0)      # write 1: header and VLRs; write 2: the points
+                with LasWriter(buf, hdr, closefd=False) as w:
+                    w.write_points(rec)
+            else:
+                b0 = io.BytesIO()
+                laspy.LasData(hdr).write(b0)
+                buf = _FailingDest(1 if how == "failing_dest" else 0, b0.getvalue())
+                with laspy.open(buf, mode="a", closefd=False) as ap:
+                    ap.append_points(rec)
+        except Exception as e:
+            outcome = type(e).__name__
+        ck.count("stream_view_outcome:" + outcome)
+        now = (parent.array.tobytes(), parent.scales.tobytes(), parent.offsets.tobytes(), rec.array.tobytes(), rec.scales.tobytes(), rec.offsets.tobytes())
+        if now != snap:
+            which = "the record it is a view of" if now[:3] != snap[:3] else "the view"
+            ck.fail(f"a {how} of a scale-aware record streamed into a {dest} that uses "
+                    f"{'the same' if how == 'strided_same_scaling' else 'another'} scaling (outcome: {outcome}): {which} was modified "
+                    f"(parent X now {parent.array['X'].tolist()}, scales {parent.scales.tolist()}, offsets {parent.offsets.tolist()})", inp)
+            continue
+        if how == "failing_dest" and outcome != "OSError":
+            ck.fail(f"the destination's failure did not surface (outcome {outcome})", inp)
+        if outcome == "written":
+            back = laspy.read(io.BytesIO(buf.getvalue()))
+            got = [np.array(back.x), np.array(back.y), np.array(back.z)]
+            for a in range(3):
+                if len(got[a]) != len(want[a]) or np.any(np.abs(got[a] - want[a]) > ds[a] / 2):
+                    ck.fail(f"streamed {how}: coordinates on axis {a}: presented {want[a].tolist()} stored {got[a].tolist()} (destination step {ds[a]})", inp)
+                    break
+
+
 def run(ck):
     logging.getLogger("laspy").setLevel(logging.CRITICAL)
     warnings.simplefilter("ignore")
@@ -488,6 +566,16 @@ def run(ck):
                     if X.tolist() != ref.cols[a]:
                         ck.fail(f"step {len(ops)} {tok(op)[:80]}: stored {d.upper()} {X.tolist()} != nearest representable integers {ref.cols[a]}", dict(inp, finding_key=fk))
                         raise StopIteration
+                # every way the object presents its coordinates: las.xyz, las.points.x/y/z, las["x"]
+                xyz = np.asarray(las.xyz)
+                for a, d in enumerate("xyz"):
+                    col = np.asarray(las.points.array[d.upper()].astype(np.int64) * las.points.scales[a] + las.points.offsets[a], dtype=np.float64)
+                    for label, got in (("las.xyz[:, %d]" % a, xyz[:, a] if xyz.ndim == 2 else None), ("las.points." + d, np.array(getattr(las.points, d))),
+                                       ("las['%s']" % d, np.array(las[d]))):
+                        if got is None or np.asarray(got, dtype=np.float64).tobytes() != col.tobytes():
+                            ck.fail(f"step {len(ops)} {tok(op)[:80]}: {label} is not X*scale+offset of the stored integers under the record's current scaling "
+                                    f"(presents {None if got is None else np.asarray(got).tolist()[:4]}, X*scale+offset = {col.tolist()[:4]})", inp)
+                            raise StopIteration
             # ---- write
             want_w = ref.write()
             snap = fio.snapshot(las)
@@ -532,6 +620,7 @@ def run(ck):
             pass
     ck.count("skipped_near_tie", skipped)
     stream_layer(ck, 60 if q else 1500)
+    stream_views_layer(ck, 30 if q else 600)
     integer_scaling_probe(ck)
     value_dtype_layer(ck, 80 if q else 2000)
     out = ck.driver(lines)
